@@ -291,7 +291,7 @@ def rule_log_precision(ctx):
     mod_floats, log_alias = set(), set()
     floats = ("float", "np.float64", "numpy.float64", "np.double", "np.longdouble", "np.float_", "'float64'", '"float64"', "'float'", '"float"', "'f8'", "'d'")
 
-    def floaty(e):
+    def floaty(e, depth=0):
         for n in ast.walk(e):
             if isinstance(n, ast.Call):
                 f = src_of(n.func)
@@ -302,6 +302,14 @@ def rule_log_precision(ctx):
                     return True
                 if f == "float":
                     return True
+                if isinstance(n.func, ast.Name) and depth < 2:
+                    # a private helper of the module that does the conversion (`x = _float_if_integer(np.array(x))`)
+                    try:
+                        helper = ctx.pkg.func("utils." + n.func.id)
+                    except Exception:
+                        helper = None
+                    if helper is not None and any(isinstance(r_, ast.Return) and r_.value is not None and floaty(r_.value, depth + 1) for r_ in ast.walk(helper.node)):
+                        return True
             if isinstance(n, ast.BinOp) and isinstance(n.op, (ast.Mult, ast.Div)) and any((isinstance(o, ast.Constant) and isinstance(o.value, float)) or
                                                                                         (isinstance(o, ast.Name) and o.id in mod_floats) for o in (n.left, n.right)):
                 return True
